@@ -1,9 +1,315 @@
 package frame
 
-import "verifharness/corr"
+import (
+	"bufio"
+	"bytes"
+	"context"
+	"fmt"
+	"net"
+	"strconv"
+	"sync"
+	"time"
 
-// runE2E (thorough tier): messages through the real HTTP and WebSocket tunnels on loopback.
+	"github.com/bluenviron/gortsplib/v5"
+	"github.com/bluenviron/gortsplib/v5/pkg/base"
+	"github.com/bluenviron/gortsplib/v5/pkg/conn"
+
+	"verifharness/corr"
+)
+
+// Thorough tier: messages through the real HTTP tunnel and the real WebSocket tunnel between a
+// client-side tunnel (newClientTunnelHTTP / newClientTunnelWebSocket, exposed by the verif hook)
+// and a real gortsplib.Server on loopback.  Client → server: requests, base64-encoded one padded
+// block per write (HTTP) or one binary message per write (WebSocket), observed by the server's
+// OnRequest hook.  Server → client: the responses the server writes (observed by OnResponse),
+// read back by conn.Conn on the client side of the tunnel.
+
+type e2eHandler struct {
+	mu        sync.Mutex
+	requests  map[*gortsplib.ServerConn][]string
+	responses map[*gortsplib.ServerConn][]string
+	scripted  map[string]*base.Response // by CSeq
+	lastConn  *gortsplib.ServerConn
+	closeErrs []string
+}
+
+func (h *e2eHandler) OnConnClose(ctx *gortsplib.ServerHandlerOnConnCloseCtx) {
+	h.mu.Lock()
+	defer h.mu.Unlock()
+	h.closeErrs = append(h.closeErrs, fmt.Sprint(ctx.Error))
+}
+
+func (h *e2eHandler) OnRequest(sc *gortsplib.ServerConn, req *base.Request) {
+	h.mu.Lock()
+	defer h.mu.Unlock()
+	h.requests[sc] = append(h.requests[sc], fmtElem(req))
+	h.lastConn = sc
+}
+
+func (h *e2eHandler) OnResponse(sc *gortsplib.ServerConn, res *base.Response) {
+	h.mu.Lock()
+	defer h.mu.Unlock()
+	// what conn.WriteResponse is about to write: Content-Length and the default status message
+	// are filled in by Marshal
+	y := *res
+	y.Header = base.Header{}
+	for k, v := range res.Header {
+		y.Header[k] = v
+	}
+	if len(y.Body) != 0 {
+		y.Header["Content-Length"] = base.HeaderValue{strconv.Itoa(len(y.Body))}
+	}
+	if y.StatusMessage == "" {
+		y.StatusMessage = base.StatusMessages[y.StatusCode]
+	}
+	for k, v := range y.Header {
+		if len(v) == 0 {
+			delete(y.Header, k) // a key without values is not written
+		}
+	}
+	h.responses[sc] = append(h.responses[sc], fmtElem(&y))
+}
+
+func (h *e2eHandler) script(req *base.Request) (*base.Response, error) {
+	h.mu.Lock()
+	defer h.mu.Unlock()
+	if cs := req.Header["CSeq"]; len(cs) == 1 {
+		if r, ok := h.scripted[cs[0]]; ok {
+			return r, nil
+		}
+	}
+	return &base.Response{StatusCode: base.StatusOK}, nil
+}
+
+func (h *e2eHandler) OnGetParameter(ctx *gortsplib.ServerHandlerOnGetParameterCtx) (*base.Response, error) {
+	return h.script(ctx.Request)
+}
+
+func (h *e2eHandler) OnSetParameter(ctx *gortsplib.ServerHandlerOnSetParameterCtx) (*base.Response, error) {
+	return h.script(ctx.Request)
+}
+
+func freeAddr() string {
+	l, err := net.Listen("tcp", "127.0.0.1:0")
+	if err != nil {
+		return "127.0.0.1:18554"
+	}
+	defer l.Close()
+	return l.Addr().String()
+}
+
+func (g *gen) e2eRequest(i int) *base.Request {
+	req := g.request()
+	if req.URL == nil {
+		req.URL, _ = base.ParseURL("rtsp://127.0.0.1/stream")
+	}
+	delete(req.Header, "Session")
+	delete(req.Header, "Cseq")
+	req.Header["CSeq"] = base.HeaderValue{strconv.Itoa(i + 1)}
+	if entries(req.Header) >= maxEntries {
+		req.Body = nil
+	}
+	if len(req.Body) > 20000 {
+		req.Body = req.Body[:20000]
+	}
+	return req
+}
+
+func (g *gen) e2eResponse() *base.Response {
+	res := g.response()
+	delete(res.Header, "CSeq")
+	delete(res.Header, "Server")
+	delete(res.Header, "Content-Length")
+	for entries(res.Header) > maxEntries-3 {
+		for k := range res.Header {
+			delete(res.Header, k)
+			break
+		}
+	}
+	if len(res.Body) > 20000 {
+		res.Body = res.Body[:20000]
+	}
+	return res
+}
+
+// e2eRun pushes n requests through one tunnel connection and checks both directions.
+func (g *gen) e2eRun(name, kind string, addr string, h *e2eHandler, n int) {
+	c := g.c
+	ctx, cancel := context.WithTimeout(context.Background(), 20*time.Second)
+	defer cancel()
+	var nc net.Conn
+	var err error
+	switch kind {
+	case "http":
+		nc, err = gortsplib.VerifClientTunnelHTTP(ctx, addr, nil)
+	default:
+		nc, err = gortsplib.VerifClientTunnelWebSocket(ctx, addr)
+	}
+	if err != nil {
+		c.Note(fmt.Sprintf("e2e %s: tunnel could not be opened: %v", kind, err))
+		c.Dist("e2e-" + kind + "-unavailable")
+		return
+	}
+	defer nc.Close()
+
+	var reqs []*base.Request
+	h.mu.Lock()
+	h.scripted = map[string]*base.Response{}
+	for i := 0; i < n; i++ {
+		req := g.e2eRequest(i)
+		reqs = append(reqs, req)
+		if req.Method == base.GetParameter || req.Method == base.SetParameter {
+			h.scripted[strconv.Itoa(i+1)] = g.e2eResponse()
+		}
+	}
+	h.mu.Unlock()
+
+	cn := conn.NewConn(bufio.NewReader(nc), nc)
+	var written []string
+	var stream bytes.Buffer
+	werr := make(chan error, 1)
+	go func() {
+		for _, req := range reqs {
+			nc.SetWriteDeadline(time.Now().Add(10 * time.Second))
+			if err := cn.WriteRequest(req); err != nil {
+				werr <- err
+				return
+			}
+		}
+		werr <- nil
+	}()
+	// what is written (Marshal is deterministic; computed on copies to avoid racing on the header maps)
+	for _, req := range reqs {
+		cp := *req
+		cp.Header = base.Header{}
+		for k, v := range req.Header {
+			cp.Header[k] = v
+		}
+		b, _ := cp.Marshal()
+		stream.Write(b)
+		written = append(written, fmtElem(&cp))
+	}
+	var got []string
+	for i := 0; i < n; i++ {
+		nc.SetReadDeadline(time.Now().Add(10 * time.Second))
+		what, err := cn.Read()
+		if err != nil {
+			got = append(got, "error: "+classify(err))
+			break
+		}
+		got = append(got, fmtElem(what))
+	}
+	if err := <-werr; err != nil {
+		c.Note(fmt.Sprintf("e2e %s: write failed: %v", kind, err))
+	}
+	h.mu.Lock()
+	sc := h.lastConn
+	seen := append([]string{}, h.requests[sc]...)
+	sent := append([]string{}, h.responses[sc]...)
+	closeErrs := fmt.Sprint(h.closeErrs)
+	h.mu.Unlock()
+
+	in := map[string]any{"kind": "e2e-" + kind, "stream": hexs(stream.Bytes())}
+	firstDiff := func(a, b []string) string {
+		for i := 0; i < len(a) || i < len(b); i++ {
+			x, y := "<missing>", "<missing>"
+			if i < len(a) {
+				x = a[i]
+			}
+			if i < len(b) {
+				y = b[i]
+			}
+			if x != y {
+				return fmt.Sprintf("element %d of %d/%d: %s vs %s", i, len(a), len(b), trunc(x), trunc(y))
+			}
+		}
+		return "equal"
+	}
+	if fmtResult(seen, "") != fmtResult(written, "") {
+		viol(c, in, "requests written through the "+kind+" tunnel are read by the server as the same sequence", "e2e-"+kind+"-requests",
+			"server read vs client wrote: "+firstDiff(seen, written)+" server-side connection errors so far: "+closeErrs)
+	}
+	if fmtResult(got, "") != fmtResult(sent, "") {
+		viol(c, in, "responses written by the server through the "+kind+" tunnel are read by the client as the same sequence", "e2e-"+kind+"-responses",
+			"client read vs server wrote: "+firstDiff(got, sent))
+	}
+	// the model on the byte stream the client wrote: it must read what the server read
+	cs := corr.Case{Name: name, Nontrivial: true}
+	cs.Ops = append(cs.Ops, "frame reset")
+	cs.Impl = append(cs.Impl, "ok")
+	for _, op := range urlOps(stream.Bytes()) {
+		cs.Ops = append(cs.Ops, op)
+		cs.Impl = append(cs.Impl, "ok")
+	}
+	cs.Ops = append(cs.Ops, "frame stream "+hx(stream.Bytes()), "frame parse")
+	cs.Impl = append(cs.Impl, "ok", fmtResult(seen, "eof"))
+	c.Add(cs)
+	c.Dist("e2e-" + kind)
+	c.DistN("e2e-"+kind+"-requests", n)
+}
+
+// e2eClient: the library's own Client with a tunnel against the library's Server.
+func (g *gen) e2eClient(kind string, addr string, h *e2eHandler) {
+	c := g.c
+	var creq, cres []string
+	var mu sync.Mutex
+	cl := &gortsplib.Client{
+		Scheme: "rtsp", Host: addr,
+		OnRequest:  func(r *base.Request) { mu.Lock(); creq = append(creq, string(r.Method)+" "+r.Header["CSeq"][0]); mu.Unlock() },
+		OnResponse: func(r *base.Response) { mu.Lock(); cres = append(cres, fmt.Sprint(int(r.StatusCode))+" "+fmt.Sprint(r.Header["CSeq"])); mu.Unlock() },
+	}
+	if kind == "http" {
+		cl.Tunnel = gortsplib.TunnelHTTP
+	} else {
+		cl.Tunnel = gortsplib.TunnelWebSocket
+	}
+	if err := cl.Start(); err != nil {
+		c.Note("e2e client " + kind + ": " + err.Error())
+		return
+	}
+	defer cl.Close()
+	u, _ := base.ParseURL("rtsp://" + addr + "/stream?x=1")
+	ok := 0
+	for i := 0; i < 5; i++ {
+		res, err := cl.Options(u)
+		if err != nil {
+			viol(c, map[string]any{"kind": "e2e-client-" + kind}, "a library client talks to a library server through the "+kind+" tunnel",
+				"e2e-client-"+kind, fmt.Sprintf("OPTIONS %d failed: %v", i, err))
+			return
+		}
+		if res.StatusCode == base.StatusOK {
+			ok++
+		}
+	}
+	h.mu.Lock()
+	sc := h.lastConn
+	seen := len(h.requests[sc])
+	h.mu.Unlock()
+	mu.Lock()
+	defer mu.Unlock()
+	if ok != 5 || seen < 5 || len(cres) < 5 {
+		viol(c, map[string]any{"kind": "e2e-client-" + kind}, "a library client talks to a library server through the "+kind+" tunnel",
+			"e2e-client-"+kind, fmt.Sprintf("%d OK responses, server saw %d requests, client %v / %v", ok, seen, creq, cres))
+	}
+	c.Dist("e2e-client-" + kind)
+	c.CountOnly("e2e-client-"+kind, true)
+}
+
 func runE2E(c *corr.Ctx, g *gen) {
-	_ = g
-	c.Note("e2e tunnels: not yet implemented")
+	t0 := time.Now()
+	defer func() { c.Note(fmt.Sprintf("e2e took %.1fs", time.Since(t0).Seconds())) }()
+	addr := freeAddr()
+	h := &e2eHandler{requests: map[*gortsplib.ServerConn][]string{}, responses: map[*gortsplib.ServerConn][]string{}}
+	s := &gortsplib.Server{Handler: h, RTSPAddress: addr}
+	if err := s.Start(); err != nil {
+		c.Note("e2e: server could not be started on loopback: " + err.Error())
+		return
+	}
+	defer s.Close()
+	for i := 0; i < c.N(4, 80); i++ {
+		g.e2eRun(fmt.Sprintf("e2e-http-%d", i), "http", addr, h, 1+g.r.IntN(12))
+		g.e2eRun(fmt.Sprintf("e2e-ws-%d", i), "ws", addr, h, 1+g.r.IntN(12))
+	}
+	g.e2eClient("http", addr, h)
+	g.e2eClient("ws", addr, h)
 }
